@@ -85,6 +85,14 @@ def scenarios():
                 # reserved parameter names: rejected when decorated
                 for reserved in ("_ARGS", "_KWARGS"):
                     yield mk("param-" + reserved, reserved, "1", "definition", "TypeError")
+                    if not single:
+                        # the reserved name in every parameter position Python offers
+                        yield mk("param-kwonly-default-" + reserved, "x, *, {}=None".format(reserved), "1", "definition", "TypeError")
+                        yield mk("param-kwonly-" + reserved, "x, *, {}".format(reserved), "1, {}=2".format(reserved), "definition", "TypeError")
+                        yield mk("param-posonly-" + reserved, "{}, /, x=0".format(reserved), "1", "definition", "TypeError")
+                        yield mk("param-after-varargs-" + reserved, "x, *rest, {}=None".format(reserved), "1", "definition", "TypeError")
+                        yield mk("param-varkw-" + reserved, "x, **{}".format(reserved), "1", "definition", "TypeError")
+                        yield mk("param-varargs-" + reserved, "x, *{}".format(reserved), "1", "definition", "TypeError")
                 # result / OLD as parameter names: call fails iff the function has postconditions
                 for reserved in ("result", "OLD"):
                     yield mk("param-" + reserved, reserved, "1", "call" if has_post else "none", "TypeError" if has_post else None)
